@@ -917,6 +917,11 @@ class CeiloChunk(AbstractChunk):
         # Get ready to add the layering info to the data
         self.data.loc[:, 'layer_id'] = None
 
+        # Sub-layers get brand new ids, that must never collide with the ids that un-split layers
+        # inherit from their group (i.e. slice labels, which can exceed 100 for very rich scenes).
+        # Start above the largest group id (and at 100 at least, as has always been the case).
+        sub_layer_id_offset = max(100, int(self.data['group_id'].max()) + 1)
+
         # Loop through every group, and look for sub-layers in it ...
         for ind in range(len(self.groups)):
 
@@ -971,7 +976,7 @@ class CeiloChunk(AbstractChunk):
             if ncomp > 1:
                 self.data.loc[self.data.loc[:, 'group_id'] ==
                               self._groups.at[ind, 'cluster_id'], 'layer_id'] = \
-                    100+10*ind+sub_layers_id
+                    sub_layer_id_offset+10*ind+sub_layers_id
 
         # Deal with the points that have not been assigned a layer id yet
         to_fill = self.data['layer_id'].isna()
